@@ -95,6 +95,8 @@ Definition pvec_normalizable (p : pvec) : r3_Vector :=
                            (bigf_to_float (bigf_scale (pv_Z p) (- m)))
   end.
 
+Definition pvec_direction (p : pvec) : r3_Vector := r3_Vector_Normalize (pvec_normalizable p).
+
 (** exact (a x b) . c : the value RobustSign returns whenever it is non-zero (C02); the
     symbolic perturbation used when it is zero is not modelled here *)
 Definition sign_exact (a b c : s2_Point) : Z :=
@@ -131,12 +133,15 @@ Fixpoint coll_pick_old (cands : list (bool * s2_Point)) : r3_Vector :=
               else coll_pick_old t
   end.
 
-Definition coll_candidates (occw : s2_Point -> s2_Point -> s2_Point -> s2_Point -> bool)
+(** [nrm] converts the exact edge normals (repaired, /repo e0f951d: rescaled like xP;
+    before: PreciseVector.Vector()) *)
+Definition coll_candidates_gen (nrm : pvec -> r3_Vector) (occw : s2_Point -> s2_Point -> s2_Point -> s2_Point -> bool)
     (a0 a1 b0 b1 : s2_Point) : list (bool * s2_Point) :=
-  let aNorm := mk_s2_Point (pvec_vector (isect_aNormP a0 a1)) in
-  let bNorm := mk_s2_Point (pvec_vector (isect_aNormP b0 b1)) in
+  let aNorm := mk_s2_Point (nrm (isect_aNormP a0 a1)) in
+  let bNorm := mk_s2_Point (nrm (isect_aNormP b0 b1)) in
   [ (occw b0 a0 b1 bNorm, a0); (occw b0 a1 b1 bNorm, a1);
     (occw a0 b0 a1 aNorm, b0); (occw a0 b1 a1 aNorm, b1) ].
+Definition coll_candidates := coll_candidates_gen pvec_direction.
 
 (** s2.intersectionExact; [tofloat] is the conversion of the exact vector (repaired:
     normalizableFromPrecise(xP).Normalize(); before 15c67df: xP.Vector()), [pick] the collinear
@@ -146,7 +151,6 @@ Definition s2_intersectionExact_gen (tofloat : pvec -> r3_Vector) (pick : list (
   let x := tofloat (isect_xP a0 a1 b0 b1) in
   if r3_Vector_eqb x vec_zero then mk_s2_Point (pick (coll_candidates occw a0 a1 b0 b1))
   else mk_s2_Point x.
-Definition pvec_direction (p : pvec) : r3_Vector := r3_Vector_Normalize (pvec_normalizable p).
 Definition s2_intersectionExact_with := s2_intersectionExact_gen pvec_direction coll_pick.
 Definition s2_intersectionExact := s2_intersectionExact_with occw_exact.
 (** the two earlier variants, kept for the [_old_refuted] witnesses *)
@@ -163,9 +167,18 @@ Definition isect_fix_sign (pt a0 a1 b0 b1 : s2_Point) : s2_Point :=
                        (r3_Vector_Add (s2_Point_Vector b0) (s2_Point_Vector b1)))) 0%float
   then mk_s2_Point (r3_Vector_Mul (s2_Point_Vector pt) (-1)%float) else pt.
 
-Definition s2_Intersection_with (exact : s2_Point -> s2_Point -> s2_Point -> s2_Point -> s2_Point)
+(** [Point{pt.Add(r3.Vector{})}] (/repo 6031b18): x + (+0) turns -0 into +0 *)
+Definition isect_canon_zero (pt : s2_Point) : s2_Point :=
+  mk_s2_Point (r3_Vector_Add (s2_Point_Vector pt) (mk_r3_Vector 0%float 0%float 0%float)).
+
+(** the point before the final canonicalisation of zero signs *)
+Definition s2_Intersection_signed (exact : s2_Point -> s2_Point -> s2_Point -> s2_Point -> s2_Point)
     (a0 a1 b0 b1 : s2_Point) : s2_Point :=
   let '(pt, ok) := s2_intersectionStable a0 a1 b0 b1 in
   let pt := if ok then pt else exact a0 a1 b0 b1 in
   isect_fix_sign pt a0 a1 b0 b1.
+Definition s2_Intersection_with exact (a0 a1 b0 b1 : s2_Point) : s2_Point :=
+  isect_canon_zero (s2_Intersection_signed exact a0 a1 b0 b1).
 Definition s2_Intersection := s2_Intersection_with s2_intersectionExact.
+(** as it was before 6031b18 (for the [_old_refuted] witness) *)
+Definition s2_Intersection_old_signed := s2_Intersection_signed s2_intersectionExact.
